@@ -368,3 +368,21 @@ Section SessionLog.
       end
     end.
 End SessionLog.
+
+(* ---- stateful mechanisms ------------------------------------------------------
+   A Go SASLMech may keep state between calls (challenge-response mechanisms do): Method
+   and Encode may answer differently every time.  A history is then a list of steps, each
+   pairing the server's event with the mechanism as it behaves at that step. *)
+Definition set_sasl (c : config) (m : sasl_mech) : config :=
+  mkCfg (Some m) (cfg_server_pass c) (cfg_webirc c) (cfg_tracking c)
+        (cfg_nick c) (cfg_user c) (cfg_name c).
+
+Fixpoint run_stateful (c : config) (cn : conn) (steps : list (sasl_mech * event))
+  : res (conn * list output) :=
+  match steps with
+  | [] => Ok (cn, [])
+  | (m, e) :: r =>
+    x <- feed (set_sasl c m) cn e ;;
+    y <- run_stateful c (fst x) r ;;
+    Ok (fst y, snd x ++ snd y)
+  end.
